@@ -1,5 +1,6 @@
 import DateutilVerif.Properties.C06
 import DateutilVerif.Properties.TzGen   -- translator tie (wt-iso): obligations about the re-translated lookup functions
+import DateutilVerif.Properties.TzifGen   -- translator tie for the reader (wt-tzfile): tzfile._read_tzfile re-translated
 #print axioms C06.lookup_exact
 #print axioms C06.typeAt_before_first
 #print axioms C06.before_first
@@ -14,3 +15,11 @@ import DateutilVerif.Properties.TzGen   -- translator tie (wt-iso): obligations 
 #print axioms C06.gen_eq_model_tzname
 #print axioms C06.gen_eq_model_fromutc
 #print axioms C06.lookup_exact_gen
+-- translator tie for the READER (wt-tzfile): Gen.readTzfile* (Generated/TzifKernels.lean) = decode / build
+#print axioms C06.gen_eq_model_read_tzfile_decode
+#print axioms C06.gen_eq_model_read_tzfile_build
+#print axioms C06.gen_eq_model_read_tzfile
+#print axioms C06.read_tzfile_ok
+#print axioms C06.read_tzfile_error
+#print axioms C06.decode_encode_gen
+#print axioms C06.lookup_exact_read_gen
